@@ -4742,12 +4742,15 @@ class WBEMConnection:  # pylint: disable=too-many-instance-attributes
                 QueryLanguage=QueryLanguage,
                 Query=Query)
 
-            if result is None:
-                instances = []
-            else:
-                instances = [x[2] for x in result[0][2]]
+            instances = self._unpack_object_elements(result)
 
             for instance in instances:
+
+                if not isinstance(instance, CIMInstance):
+                    raise CIMXMLParseError(
+                        _format("Expecting CIMInstance object in result list, "
+                                "got {0} object", instance.__class__.__name__),
+                        conn_id=self.conn_id)
 
                 # The ExecQuery CIM-XML operation returns instances as any of
                 # (VALUE.OBJECT | VALUE.OBJECTWITHLOCALPATH |
